@@ -235,9 +235,10 @@ func verifyServerResponse(opts *DialOptions, copts *compressionOptions, secWebSo
 		return nil, fmt.Errorf("WebSocket protocol violation: Upgrade header %q does not contain websocket", resp.Header.Get("Upgrade"))
 	}
 
-	if resp.Header.Get("Sec-WebSocket-Accept") != secWebSocketAccept(secWebSocketKey) {
+	// Header.Get would only look at the first of several Sec-WebSocket-Accept lines.
+	if accepts := resp.Header.Values("Sec-WebSocket-Accept"); len(accepts) != 1 || accepts[0] != secWebSocketAccept(secWebSocketKey) {
 		return nil, fmt.Errorf("WebSocket protocol violation: invalid Sec-WebSocket-Accept %q, key %q",
-			resp.Header.Get("Sec-WebSocket-Accept"),
+			strings.Join(accepts, ", "),
 			secWebSocketKey,
 		)
 	}
@@ -251,7 +252,14 @@ func verifyServerResponse(opts *DialOptions, copts *compressionOptions, secWebSo
 }
 
 func verifySubprotocol(subprotos []string, resp *http.Response) error {
-	proto := resp.Header.Get("Sec-WebSocket-Protocol")
+	protos := resp.Header.Values("Sec-WebSocket-Protocol")
+	if len(protos) == 0 {
+		return nil
+	}
+	if len(protos) > 1 {
+		return fmt.Errorf("WebSocket protocol violation: multiple Sec-WebSocket-Protocol headers from server: %q", protos)
+	}
+	proto := protos[0]
 	if proto == "" {
 		return nil
 	}
